@@ -211,6 +211,15 @@ pub fn exp_derive_input(di: &syn::DeriveInput, magic: &[String], flavor: &str) -
         let wrap_f: Box<dyn Fn(&syn::Field, Val) -> Val> = if flavor == "data_wrapped" { Box::new(|f, v| with_original(v, f)) } else { Box::new(|_, v| v) };
         data = match &di.data {
             syn::Data::Union(_) => return Err(vec![Error::custom("Unions are not supported")]),
+            syn::Data::Struct(s) if flavor == "data_builtin" => {
+                let style = match &s.fields {
+                    syn::Fields::Named(_) => "Struct",
+                    syn::Fields::Unnamed(_) => "Tuple",
+                    syn::Fields::Unit => "Unit",
+                };
+                Val::Var("Struct".into(), Box::new(Val::Rec(vec![("style".into(), Val::S(style.into())), ("fields".into(), Val::List(s.fields.iter().map(|f| tok(&f.ty)).collect()))])))
+            }
+            syn::Data::Enum(e) if flavor == "data_builtin" => Val::Var("Enum".into(), Box::new(Val::List(e.variants.iter().map(|v| tok(&v.ident)).collect()))),
             syn::Data::Struct(s) => Val::Var("Struct".into(), Box::new(exp_fields(&s.fields, &strs(&FULL_F), &wrap_f)?)),
             syn::Data::Enum(e) => {
                 let mut vs = vec![];
@@ -233,7 +242,8 @@ pub fn exp_derive_input(di: &syn::DeriveInput, magic: &[String], flavor: &str) -
 
 // ------------------------------------------------------------------ inputs
 
-pub const FIELD_FORMS: [(&str, &str, &str); 6] = [
+pub const FIELD_FORMS: [(&str, &str, &str); 7] = [
+    ("", "pub ", "((dyn Fn(u8) -> u8 + Send))"),
     ("", "", "u8"),
     ("", "pub ", "Vec<T>"),
     ("#[a(k = 1)] ", "pub(crate) ", "&'a str"),
@@ -401,6 +411,18 @@ fn element_cases(thorough: bool) -> (Vec<String>, Vec<String>, Vec<String>) {
 }
 
 pub fn expectation(entry: &BodyEntry, src: &str) -> Option<Result<Val, Vec<Error>>> {
+    let r = expectation_inner(entry, src)?;
+    if entry.flavor == "from_ident" {
+        // an absent `k` comes from the `From<Ident>` value (99); `ident` is still the input's
+        return Some(r.map(|v| match v {
+            Val::Rec(fs) => Val::Rec(fs.into_iter().map(|(n, x)| if n == "k" && x == Val::None { (n, Val::some(Val::U(99))) } else { (n, x) }).collect()),
+            other => other,
+        }));
+    }
+    Some(r)
+}
+
+fn expectation_inner(entry: &BodyEntry, src: &str) -> Option<Result<Val, Vec<Error>>> {
     let di: syn::DeriveInput = syn::parse_str(src).ok()?;
     Some(match entry.tr8 {
         Trait::FromDeriveInput => exp_derive_input(&di, &entry.magic, &entry.flavor),
@@ -421,7 +443,24 @@ pub fn expectation(entry: &BodyEntry, src: &str) -> Option<Result<Val, Vec<Error
                 syn::Data::Enum(e) => e.variants.iter().next()?.clone(),
                 _ => return None,
             };
-            let base = exp_variant(&v, &entry.magic, &|_, x| x);
+            let base = if entry.flavor == "fields_builtin" {
+                // `Fields<syn::Type>`: each entry is the field's type, unchanged; field attributes
+                // are not looked at
+                let (k, errs) = attr_layer(&v.attrs);
+                if errs.is_empty() {
+                    let style = match &v.fields {
+                        syn::Fields::Named(_) => "Struct",
+                        syn::Fields::Unnamed(_) => "Tuple",
+                        syn::Fields::Unit => "Unit",
+                    };
+                    let fields = Val::Rec(vec![("style".into(), Val::S(style.into())), ("fields".into(), Val::List(v.fields.iter().map(|f| tok(&f.ty)).collect()))]);
+                    Ok(pick(&entry.magic, vec![("ident", tok(&v.ident)), ("fields", fields)], k))
+                } else {
+                    Err(errs)
+                }
+            } else {
+                exp_variant(&v, &entry.magic, &|_, x| x)
+            };
             // receivers that also declare supports(..): the shape verdict belongs to the
             // attribute layer, so it is reported together with the variant's own attribute
             // errors and the body is only converted when that layer is clean
